@@ -20,8 +20,13 @@
 (*   inmG, inmS    the database-wide in-memory index and the per-shard id bitsets of    *)
 (*                 inmem.ShardIndex; both are rebuilt from the stored keys at open      *)
 (*                 (Engine.LoadMetadataIndex);                                          *)
-(*   sfDirty, cacheDirty[sh]  whether the series-file index / the shard's cache hold    *)
-(*                 entries that the next compaction / snapshot moves to disk.           *)
+(*   sfDirty       whether the series-file index holds entries that the next compaction  *)
+(*                 moves to disk;                                                       *)
+(*   cache, spans  where the points are: cache[sh][s] = slots of s in the shard's cache *)
+(*                 (and WAL); spans[sh][s] = for every TSM file that has a key of s,    *)
+(*                 the slots its index entry spans.  deleteSeriesRange keeps a series   *)
+(*                 in the index as long as a cache entry or a TSM key of it exists, and *)
+(*                 a TSM key goes away only when a delete covers its whole span.        *)
 (* Logical actions: Create (a write; Recreate when the series was dropped before),      *)
 (*   DropSeries (DELETE/DROP SERIES by measurement and/or tag predicate, for all time,  *)
 (*   for the time range of one shard, or for one time slot), DropMeasurement.           *)
@@ -42,8 +47,8 @@ CONSTANTS U,          \* subset of 0..17
           Dev         \* deviations switched on: "tsiTagEntriesLinger" (recorded finding, see known/C14.json);
                       \* negative controls: "compactDropsTombstones", "reopenKeepsInmem"
 
-VARIABLES pts, everDropped, gen, sfLive, sfDirty, tsi, tagSrc, inmG, inmS, cacheDirty, kind, ops
-vars == <<pts, everDropped, gen, sfLive, sfDirty, tsi, tagSrc, inmG, inmS, cacheDirty, kind, ops>>
+VARIABLES pts, everDropped, gen, sfLive, sfDirty, tsi, tagSrc, inmG, inmS, cache, spans, kind, ops
+vars == <<pts, everDropped, gen, sfLive, sfDirty, tsi, tagSrc, inmG, inmS, cache, spans, kind, ops>>
 
 -----------------------------------------------------------------------------
 (* The fixed vocabulary.                                                     *)
@@ -119,6 +124,12 @@ QTagValues(X, m, k, p) == {TagOf(s, k) : s \in QSeries(X, m, p)} \ {""}
 (* Reference and physical views.                                             *)
 Live(sh) == {s \in U : pts[sh][s] # {}}
 DBLive == UNION {Live(sh) : sh \in Shards}
+(* the series the shard's storage still has a key of - what the index is kept in line with.  Stored = Live  *)
+(* except for a series whose points were all removed by time-bounded DELETEs none of which covered the span  *)
+(* of its TSM entry ("zombie"; InfluxQL: DELETE, unlike DROP SERIES, need not drop a series from the index). *)
+Stored(sh) == {s \in U : cache[sh][s] # {} \/ spans[sh][s] # {}}
+DBStored == UNION {Stored(sh) : sh \in Shards}
+Zombies(sh) == Stored(sh) \ Live(sh)
 
 Id(s) == <<s, gen[s]>>
 EmptyLog == [lvl |-> 0, add |-> {}, del |-> {}]
@@ -150,7 +161,8 @@ Init ==
   /\ tagSrc = [sh \in Shards |-> {}]
   /\ inmG = {}
   /\ inmS = [sh \in Shards |-> {}]
-  /\ cacheDirty = [sh \in Shards |-> FALSE]
+  /\ cache = [sh \in Shards |-> [s \in U |-> {}]]
+  /\ spans = [sh \in Shards |-> [s \in U |-> {}]]
   /\ kind = "init"
   /\ ops = 0
 
@@ -161,7 +173,7 @@ LogDel(fs, ids) == <<[Head(fs) EXCEPT !.add = @ \ ids, !.del = @ \cup ids]>> \o 
 (* Shard.validateSeriesAndFields -> Index.CreateSeriesListIfNotExists: series file entry   *)
 (* (new id when absent or tombstoned), log file entry unless the shard's set has the id.   *)
 Create(sh, s, t) ==
-  IF t \in pts[sh][s] THEN UNCHANGED vars      \* one more point at an existing (series, time): nothing changes
+  IF t \in cache[sh][s] THEN UNCHANGED vars      \* one more point at a (series, time) the cache already has: nothing changes
   ELSE
   /\ s \in sfLive \/ gen[s] < MaxGen
   /\ pts' = [pts EXCEPT ![sh][s] = @ \cup {t}]
@@ -173,7 +185,8 @@ Create(sh, s, t) ==
   /\ tagSrc' = [tagSrc EXCEPT ![sh] = @ \cup {s}]
   /\ inmG' = inmG \cup {s}
   /\ inmS' = [inmS EXCEPT ![sh] = @ \cup {s}]
-  /\ cacheDirty' = [cacheDirty EXCEPT ![sh] = TRUE]
+  /\ cache' = [cache EXCEPT ![sh][s] = @ \cup {t}]
+  /\ UNCHANGED spans
   /\ kind' = "logical" /\ ops' = IF MaxOps = 0 THEN 0 ELSE ops + 1
   /\ UNCHANGED everDropped
 
@@ -199,15 +212,19 @@ TagSrcAfterDrop(src, goneHere) ==
   IF "tsiTagEntriesLinger" \in Dev THEN src ELSE src \ goneHere
 
 Delete(sel(_), r) ==
-  LET matched(sh) == {s \in Live(sh) : sel(s)}
-      npts == [sh \in Shards |-> [s \in U |-> IF s \in matched(sh) THEN pts[sh][s] \ RangeSlots(r, sh) ELSE pts[sh][s]]]
-      gone(sh) == {s \in matched(sh) : npts[sh][s] = {}}
+  LET matched(sh) == {s \in Stored(sh) : sel(s)}      \* the selection is evaluated on the shard's index
+      R(sh) == RangeSlots(r, sh)
+      npts == [sh \in Shards |-> [s \in U |-> IF s \in matched(sh) THEN pts[sh][s] \ R(sh) ELSE pts[sh][s]]]
+      ncache == [sh \in Shards |-> [s \in U |-> IF s \in matched(sh) THEN cache[sh][s] \ R(sh) ELSE cache[sh][s]]]
+      \* a TSM key is removed when the delete covers the whole span of its index entry, otherwise it is tombstoned in part
+      nspans == [sh \in Shards |-> [s \in U |-> IF s \in matched(sh) THEN {sp \in spans[sh][s] : ~(sp \subseteq R(sh))} ELSE spans[sh][s]]]
+      gone(sh) == {s \in matched(sh) : ncache[sh][s] = {} /\ nspans[sh][s] = {}}
       allGone == UNION {gone(sh) : sh \in Shards}
-      stillSomewhere == {s \in U : \E sh \in Shards : npts[sh][s] # {}}
+      stillSomewhere == {s \in U : \E sh \in Shards : ncache[sh][s] # {} \/ nspans[sh][s] # {}}
       sfGone == allGone \ stillSomewhere
-  IN IF npts = pts THEN UNCHANGED vars     \* nothing selected in the range: nothing changes
+  IN IF ncache = cache /\ nspans = spans THEN UNCHANGED vars     \* nothing selected in the range: nothing changes
      ELSE
-     /\ pts' = npts
+     /\ pts' = npts /\ cache' = ncache /\ spans' = nspans
      /\ everDropped' = everDropped \cup allGone
      /\ tsi' = [sh \in Shards |-> IF gone(sh) = {} THEN tsi[sh] ELSE LogDel(tsi[sh], {Id(s) : s \in gone(sh)})]
      /\ tagSrc' = [sh \in Shards |-> TagSrcAfterDrop(tagSrc[sh], gone(sh))]
@@ -216,7 +233,7 @@ Delete(sel(_), r) ==
      /\ sfLive' = sfLive \ sfGone
      /\ sfDirty' = (sfDirty \/ sfGone # {})
      /\ kind' = "logical" /\ ops' = IF MaxOps = 0 THEN 0 ELSE ops + 1
-     /\ UNCHANGED <<gen, cacheDirty>>
+     /\ UNCHANGED gen
 
 DropSeries(m, pn, r) ==   \* m = "*" : no FROM clause
   Delete(LAMBDA s : (m = "*" \/ MeasOf(s) = m) /\ Holds(PredByName[pn], s), r)
@@ -232,7 +249,7 @@ LogToIndexFile(sh) ==
   /\ Head(tsi[sh]).add \cup Head(tsi[sh]).del # {}
   /\ tsi' = [tsi EXCEPT ![sh] = <<EmptyLog, [Head(@) EXCEPT !.lvl = 1]>> \o Tail(@)]
   /\ kind' = "physical" /\ UNCHANGED ops
-  /\ UNCHANGED <<pts, everDropped, gen, sfLive, sfDirty, tagSrc, inmG, inmS, cacheDirty>>
+  /\ UNCHANGED <<pts, everDropped, gen, sfLive, sfDirty, tagSrc, inmG, inmS, cache, spans>>
 
 (* FileSet.LastContiguousIndexFilesByLevel: from the oldest end, skip files above the level, *)
 (* collect files of the level, stop at the first file below it.                             *)
@@ -263,28 +280,30 @@ CompactLevel(sh, l) ==
   /\ CanCompact(tsi[sh], l)
   /\ tsi' = [tsi EXCEPT ![sh] = CompactAt(@, l)]
   /\ kind' = "physical" /\ UNCHANGED ops
-  /\ UNCHANGED <<pts, everDropped, gen, sfLive, sfDirty, tagSrc, inmG, inmS, cacheDirty>>
+  /\ UNCHANGED <<pts, everDropped, gen, sfLive, sfDirty, tagSrc, inmG, inmS, cache, spans>>
 
 (* SeriesPartitionCompactor.Compact: the in-memory part of the series index (new ids, tombstones) *)
 (* is folded into the on-disk hash maps.                                                          *)
 SeriesFileCompact ==
   /\ sfDirty /\ sfDirty' = FALSE
   /\ kind' = "physical" /\ UNCHANGED ops
-  /\ UNCHANGED <<pts, everDropped, gen, sfLive, tsi, tagSrc, inmG, inmS, cacheDirty>>
+  /\ UNCHANGED <<pts, everDropped, gen, sfLive, tsi, tagSrc, inmG, inmS, cache, spans>>
 
 (* Engine.WriteSnapshot: cache -> TSM file *)
 Snapshot(sh) ==
-  /\ cacheDirty[sh] /\ cacheDirty' = [cacheDirty EXCEPT ![sh] = FALSE]
+  /\ \E s \in U : cache[sh][s] # {}
+  /\ spans' = [spans EXCEPT ![sh] = [s \in U |-> IF cache[sh][s] # {} THEN @[s] \cup {cache[sh][s]} ELSE @[s]]]
+  /\ cache' = [cache EXCEPT ![sh] = [s \in U |-> {}]]
   /\ kind' = "physical" /\ UNCHANGED ops
   /\ UNCHANGED <<pts, everDropped, gen, sfLive, sfDirty, tsi, tagSrc, inmG, inmS>>
 
 (* Store.Close + Open: TSI files and series file are read back; the in-memory index is rebuilt *)
 (* from the keys of the TSM files and the WAL (LoadMetadataIndex).                             *)
 Reopen ==
-  /\ inmG' = IF "reopenKeepsInmem" \in Dev THEN inmG \cup everDropped ELSE DBLive
-  /\ inmS' = [sh \in Shards |-> Live(sh)]
+  /\ inmG' = IF "reopenKeepsInmem" \in Dev THEN inmG \cup everDropped ELSE DBStored
+  /\ inmS' = [sh \in Shards |-> Stored(sh)]
   /\ kind' = "physical" /\ UNCHANGED ops
-  /\ UNCHANGED <<pts, everDropped, gen, sfLive, sfDirty, tsi, tagSrc, cacheDirty>>
+  /\ UNCHANGED <<pts, everDropped, gen, sfLive, sfDirty, tsi, tagSrc, cache, spans>>
 
 Logical ==
   \/ \E sh \in Shards, s \in U, t \in Slots : Create(sh, s, t)
@@ -305,6 +324,7 @@ TypeOK ==
   /\ gen \in [U -> 0..MaxGen]
   /\ sfLive \subseteq U /\ inmG \subseteq U
   /\ inmS \in [Shards -> SUBSET U] /\ tagSrc \in [Shards -> SUBSET U]
+  /\ cache \in [Shards -> [U -> SUBSET Slots]] /\ spans \in [Shards -> [U -> SUBSET (SUBSET Slots)]]
   /\ \A sh \in Shards : Len(tsi[sh]) >= 1 /\ tsi[sh][1].lvl = 0
         /\ \A i \in 2..Len(tsi[sh]) : tsi[sh][i].lvl \in 1..MaxLevel
   /\ kind \in {"init", "logical", "physical"} /\ ops \in Nat
@@ -313,11 +333,15 @@ TypeOK ==
 (* the database - hence (Q* being functions of the series set) every listing and predicate query  *)
 (* is exact: nothing written missing, nothing dropped lingering, and the two types agree.         *)
 C14_ListingsExact ==
-  /\ \A sh \in Shards : TsiSeries(sh) = Live(sh) /\ InmSeries(sh) = Live(sh)
-  /\ TsiDB = DBLive /\ InmDB = DBLive
-  /\ "tsiTagEntriesLinger" \notin Dev => \A sh \in Shards : TsiTagSeries(sh) = Live(sh)
+  /\ \A sh \in Shards : TsiSeries(sh) = Stored(sh) /\ InmSeries(sh) = Stored(sh)
+  /\ TsiDB = DBStored /\ InmDB = DBStored
+  /\ "tsiTagEntriesLinger" \notin Dev => \A sh \in Shards : TsiTagSeries(sh) = Stored(sh)
+  \* nothing written is missing; what is listed without data is a zombie of a partial delete, which needs
+  \* a TSM entry spanning more than the deleted range (never with DROP SERIES / DROP MEASUREMENT)
+  /\ \A sh \in Shards : /\ Live(sh) \subseteq Stored(sh)
+                        /\ \A s \in Zombies(sh) : cache[sh][s] = {} /\ \A sp \in spans[sh][s] : Cardinality(sp) >= 2
 (* the series file agrees with the data: an entry is live iff some shard has the series *)
-C14_SeriesFileExact == sfLive = DBLive
+C14_SeriesFileExact == sfLive = DBStored
 (* level runs are contiguous (FileSet.MustReplace would panic otherwise), levels never decrease with age *)
 C14_LevelsOrdered ==
   \A sh \in Shards :
@@ -327,8 +351,8 @@ C14_LevelsOrdered ==
 (* with the recorded deviation the unfiltered tag listings of tsi1 are those of a superset of the live series, *)
 (* never of a series that was not written to the shard, and of nothing once the measurement is gone           *)
 C14_TagListingsBounded ==
-  \A sh \in Shards : /\ Live(sh) \subseteq TsiTagSeries(sh)
-                      /\ QMeasurements(TsiTagSeries(sh)) = QMeasurements(Live(sh))
+  \A sh \in Shards : /\ Stored(sh) \subseteq TsiTagSeries(sh)
+                      /\ QMeasurements(TsiTagSeries(sh)) = QMeasurements(Stored(sh))
 
 Reported == <<[sh \in Shards |-> TsiSeries(sh)], [sh \in Shards |-> TsiTagSeries(sh)], [sh \in Shards |-> InmSeries(sh)], InmDB>>
 (* C14_PhysicalStutter: a physical action changes no answer of either index type *)
@@ -336,6 +360,7 @@ C14_PhysicalStutter == [][kind' = "physical" => Reported' = Reported]_vars
 
 (* reachability probes (must be violated): non-vacuity of the interesting situations *)
 Probe_DroppedInOneShardOnly == ~(\E s \in U : s \in everDropped /\ s \in DBLive /\ \E sh \in Shards : s \notin Live(sh) /\ Id(s) \in UNION {f.del : f \in {tsi[sh][i] : i \in 1..Len(tsi[sh])}})
+Probe_Zombie == ~(\E sh \in Shards : Zombies(sh) # {})
 Probe_Recreated == ~(\E s \in U : gen[s] >= 2 /\ s \in DBLive)
 Probe_Level3 == ~(\E sh \in Shards : \E i \in 1..Len(tsi[sh]) : tsi[sh][i].lvl >= 3)
 Probe_TombstoneInIndexFile == ~(\E sh \in Shards : \E i \in 2..Len(tsi[sh]) : tsi[sh][i].del # {} /\ tsi[sh][i].lvl >= 2)
